@@ -749,6 +749,25 @@ def shape(lang: str, text: str, unmap: dict | None = None):
     return repr(out)
 
 
+def rename_related_plan(info: "Info", r, both=True) -> "Plan | None":
+    """a renaming plan for a file in which some renamed local is RELATED to another identifier of the file (its name is contained in
+    / contains the other one), before or after the renaming; None when the file has no such local"""
+    lang = info.lang
+    res = py_local_renaming(info.text, r) if lang == "py" else ts_local_renaming(lang, info.text, r)
+    if res is None:
+        return None
+    new_lines, mapping = res
+    words = set(re.findall(r"[A-Za-z_$][A-Za-z_0-9$]*", info.text))
+    after = (words - set(mapping)) | set(mapping.values())
+    if not any(is_related(k, words) or (both and is_related(v, after)) for k, v in mapping.items()):
+        return None
+    if info.final_nl and new_lines and new_lines[-1] == "":
+        new_lines = new_lines[:-1]
+    if len(new_lines) != info.n:
+        return None
+    return Plan(info, ops=[["rename", mapping, new_lines]])
+
+
 def make_plan(r, info: Info, kinds: list[str], below_header: bool, n_ops: int, tag: str, base_crlf=False, base_bom=False) -> Plan:
     """a plan with up to n_ops operations drawn from `kinds` (edit kind names)"""
     plan = Plan(info, base_crlf, base_bom)
